@@ -2,35 +2,29 @@ package main
 
 import (
 	"encoding/json"
-	"fmt"
 	"os"
+	"time"
 
-	"verif/harness/internal/gcs"
 	"verif/harness/internal/j"
+	"verif/harness/internal/lockmap"
 )
 
-// dbg <replay.json> <out.ndjson>: re-run a gcs-seq replay and write its trace
+// dbg <schedules.json> <out.ndjson>: execute the schedules and write the runs
 func main() {
+	var scheds [][]lockmap.Step
 	b, _ := os.ReadFile(os.Args[1])
-	var f struct {
-		Case struct {
-			Store   string   `json:"store"`
-			Program []gcs.Op `json:"program"`
-		} `json:"case"`
-	}
-	if err := json.Unmarshal(b, &f); err != nil {
+	if err := json.Unmarshal(b, &scheds); err != nil {
 		panic(err)
 	}
-	dir, _ := os.MkdirTemp("", "d")
-	defer os.RemoveAll(dir)
-	s, _ := gcs.Start(f.Case.Store, dir)
-	evs := s.Run(1, f.Case.Program)
-	s.Close()
-	gcs.RankGens(evs)
 	var out []byte
-	for _, e := range evs {
-		out = append(out, j.Line(e)...)
+	for i, s := range scheds {
+		run := lockmap.Execute(i+1, s, []string{"p1", "p2", "p3"}, 25*time.Millisecond, 0)
+		for _, p := range []string{"p1", "p2", "p3"} {
+			if run.Procs[p] == nil {
+				run.Procs[p] = []lockmap.Event{}
+			}
+		}
+		out = append(out, j.Line(run)...)
 	}
 	os.WriteFile(os.Args[2], out, 0644)
-	fmt.Println(len(evs), "events")
 }
